@@ -492,7 +492,15 @@ func (g *G) codeLine() string {
 	return l
 }
 
+// lines that would open another block if they were not code: inside an indented or fenced code block they
+// are literal text (HTML block openers of every type, container markers, fences, breaks, definitions)
+var blockStartLookalikes = []string{"<div>", "</div>", "<!-- c -->", "<?php x ?>", "<!DOCTYPE x>", "<![CDATA[x]]>", "<pre>", "<script>", "<a href=\"x\">", "<b>",
+	"> q", "1. x", "- x", "+ x", "***", "---", "===", "[a]: /u", "| a | b |", "# h", "## h ##", "<table>", "<x-y>", "&amp;", "\\*"}
+
 func (g *G) codeLine0() string {
+	if coin(g.s, 1, 5) {
+		return blockStartLookalikes[g.s.Intn(len(blockStartLookalikes))]
+	}
 	n := g.s.Intn(4)
 	var sb strings.Builder
 	for i := 0; i < n; i++ {
